@@ -417,6 +417,8 @@ func b2i(b bool) int {
 //@   ensures[element-address-is-base-plus-index-times-8] gg("lastOp") == int(ssa.OpcodeIadd) && gg("lastRet") == int(elementAddress) && ssa.IsLoaded(ssa.Value(gg("lastV"))) && ssa.LoadedAt(ssa.Value(gg("lastV"))) == tableInstanceBaseAddressOffset && ssa.LoadedFrom(ssa.Value(gg("lastV"))) == ssa.LoadedFrom(ssa.ExitCmpY(wazevoapi.ExitCodeTableOutOfBounds))
 //@   ensures[other-exits-untouched] ssa.ExitsWith(wazevoapi.ExitCodeIndirectCallNullPointer) == old(ssa.ExitsWith(wazevoapi.ExitCodeIndirectCallNullPointer)) && ssa.ExitsWith(wazevoapi.ExitCodeIndirectCallTypeMismatch) == old(ssa.ExitsWith(wazevoapi.ExitCodeIndirectCallTypeMismatch))
 //@   records tblElemAddr = int(elementAddress)
+//@   records tblIndex = int(tableIndex)
+//@   records tblOffset = int(elementOffsetInTable)
 //@   modifies ghost("*")
 //@   nosafety keep-pre
 
@@ -520,4 +522,21 @@ func anyImport() int { return int(verif_uf_u64("anyImport", 0)) }
 //@   ensures[local-memory-length-from-its-slot] c.offset.LocalMemoryBegin >= 0 ==> ssa.LoadedFrom(ssa.Value(gg("lastV"))) == c.moduleCtxPtrValue && ssa.LoadedAt(ssa.Value(gg("lastV"))) == uint64(c.offset.LocalMemoryLen().U32())
 //@   ensures[imported-memory-length-through-the-exporters-instance] c.offset.LocalMemoryBegin < 0 ==> ssa.LoadedAt(ssa.Value(gg("lastV"))) == memoryInstanceBufSizeOffset && ssa.IsLoaded(ssa.LoadedFrom(ssa.Value(gg("lastV")))) && ssa.LoadedFrom(ssa.LoadedFrom(ssa.Value(gg("lastV")))) == c.moduleCtxPtrValue && ssa.LoadedAt(ssa.LoadedFrom(ssa.Value(gg("lastV")))) == uint64(c.offset.ImportedMemoryBegin.U32())
 //@   ensures[memory-size-reads-the-length-in-full] ssa.LoadedAs(ssa.Value(gg("lastV"))) == ssa.TypeI64
+//@   nosafety keep-pre
+
+// table.get / table.set in compiled code: the index is checked against the length of the table of the
+// immediate, and the element is read / written at the address that check produced.
+//@ prop C04 C02
+//@ case table.get (c *Compiler) lowerCurrentOpcode()
+//@   requires c.ssaBuilder != nil && c.loweringState.pc >= 0 && c.loweringState.pc < 1<<39 && c.loweringState.pc+1 < len(c.wasmFunctionBody) && c.wasmFunctionBody[c.loweringState.pc] == wasm.OpcodeTableGet && c.wasmFunctionBody[c.loweringState.pc+1] < 0x80
+//@   requires !c.loweringState.unreachable && len(c.loweringState.values) >= 1
+//@   ensures[index-checked-against-the-table-of-the-immediate] ssa.ExitsWith(wazevoapi.ExitCodeTableOutOfBounds) == old(ssa.ExitsWith(wazevoapi.ExitCodeTableOutOfBounds))+1 && gg("tblIndex") == int(old(c.wasmFunctionBody[c.loweringState.pc+1])) && gg("tblOffset") == int(old(stackAt(c, 0)))
+//@   ensures[element-loaded-from-the-checked-address] gg("lastOp") == int(ssa.OpcodeLoad) && gg("lastV") == gg("tblElemAddr") && uint32(gg("lastU1")) == 0 && int(stackAt(c, 0)) == gg("lastRet")
+//@   nosafety keep-pre
+
+//@ case table.set (c *Compiler) lowerCurrentOpcode()
+//@   requires c.ssaBuilder != nil && c.loweringState.pc >= 0 && c.loweringState.pc < 1<<39 && c.loweringState.pc+1 < len(c.wasmFunctionBody) && c.wasmFunctionBody[c.loweringState.pc] == wasm.OpcodeTableSet && c.wasmFunctionBody[c.loweringState.pc+1] < 0x80
+//@   requires !c.loweringState.unreachable && len(c.loweringState.values) >= 2
+//@   ensures[index-checked-against-the-table-of-the-immediate] ssa.ExitsWith(wazevoapi.ExitCodeTableOutOfBounds) == old(ssa.ExitsWith(wazevoapi.ExitCodeTableOutOfBounds))+1 && gg("tblIndex") == int(old(c.wasmFunctionBody[c.loweringState.pc+1])) && gg("tblOffset") == int(old(stackAt(c, 1)))
+//@   ensures[element-stored-at-the-checked-address] gg("lastOp") == int(ssa.OpcodeStore) && gg("lastV") == int(old(stackAt(c, 0))) && gg("lastV2") == gg("tblElemAddr") && uint32(gg("lastU1")) == 0
 //@   nosafety keep-pre
